@@ -60,8 +60,19 @@ def build(names, rows, null):
     return las
 
 
-def real_write(names, rows, null, cfg):
-    las = build(names, rows, null)
+def real_write(names, rows, null, cfg, earlier=None):
+    """write the LASFile; with `earlier` the object first holds (and writes / evaluates .data for) the earlier matrix and its
+    curve arrays are then edited IN PLACE to `rows` — the written text must reflect the arrays as they are now"""
+    if earlier is None:
+        las = build(names, rows, null)
+    else:
+        las = build(names, earlier, null)
+        las.write(io.StringIO(), **cfg)
+        _ = las.data
+        for j in range(len(names)):
+            arr = las.curves[j].data
+            for i in range(len(rows)):
+                arr[i] = rows[i][j]
     s = io.StringIO()
     las.write(s, **cfg)
     return las, s.getvalue()
@@ -204,8 +215,10 @@ def uncase(case):
     return (case["names"], [[mg.fromhex(x) for x in r] for r in case["rows"]], case["null"], cfg_from_json(case["cfg"]))
 
 
-def one(run, names, rows, null, cfg, kind, pending, with_oracle=True):
+def one(run, names, rows, null, cfg, kind, pending, with_oracle=True, earlier=None):
     case = mkcase(names, rows, null, cfg)
+    if earlier is not None:
+        case["earlier"] = [[mg.tohex(x) for x in r] for r in earlier]
     ok, why = cfg_ok(cfg, null, rows)
     nrows, ncols = len(rows), len(rows[0])
     k = mg.fields_per_line(cfg) if mg.fmt_parse(cfg["fmt"]) else 1
@@ -218,7 +231,7 @@ def one(run, names, rows, null, cfg, kind, pending, with_oracle=True):
         tags.append("has-nan")
     run.case(case, nontrivial=ok and ncols >= 2, tags=tags)
     try:
-        las, text = real_write(names, rows, null, cfg)
+        las, text = real_write(names, rows, null, cfg, earlier=earlier)
     except Exception as e:
         run.dist["write-raises:" + type(e).__name__ + (":ok" if ok else ":ctx")] += 1
         if ok:
@@ -413,10 +426,37 @@ def stream_files(run):
     pending = []
     maxrows = run.budget(8, 50)
 
-    def go(names, rows, null, cfg, kind):
-        one(run, names, rows, null, cfg, kind, pending)
+    def go(names, rows, null, cfg, kind, earlier=None):
+        one(run, names, rows, null, cfg, kind, pending, earlier=earlier)
         if len(pending) >= 64:
             flush(run, pending)
+
+    # boundary of "every formatted field fits on a wrapped line": data_width equal to the longest token (and one more)
+    for _ in range(run.budget(60, 800)):
+        cfg = mg.config(rng, supported_bias=1.0)
+        cfg["wrap"] = True
+        null = null_value(rng)
+        ncols = rng.randint(2, 9)
+        kind, rows = gen_matrix(rng, cfg, rng.randint(1, 3), ncols, null)
+        try:
+            lnf = cfg["len_numeric_field"]
+            toks = [ref_cell(x, col_fmt(cfg, j), lnf if lnf is not None else 10, "", str(null)).strip() for r in rows for j, x in enumerate(r)]
+        except Exception:
+            continue
+        longest = max(len(t) for t in toks)
+        for extra in (0, 1):
+            c2 = dict(cfg)
+            c2["data_width"] = longest + extra
+            go(mg.names(rng, ncols), rows, null, c2, "boundary-data-width")
+    # histories: the object was written (and .data evaluated) before its arrays were edited in place
+    for _ in range(run.budget(80, 1000)):
+        cfg = mg.config(rng, supported_bias=1.0)
+        null = null_value(rng)
+        ncols = rng.randint(1, 6)
+        nrows = rng.randint(1, 5)
+        _, earlier = gen_matrix(rng, cfg, nrows, ncols, null)
+        kind, rows = gen_matrix(rng, cfg, nrows, ncols, null)
+        go(mg.names(rng, ncols), rows, null, cfg, "edited-in-place-after-write", earlier=earlier)
 
     # the historical failure: 14, 21, 28 curves, wrap=True, default widths (7 fields per physical line)
     for ncols in (7, 14, 21, 28, 35, 6, 8, 13, 15):
@@ -492,7 +532,7 @@ def search(run, disagreements):
             return
 
 
-def _fails(run, clause, names, rows, null, cfg):
+def _fails(run, clause, names, rows, null, cfg, earlier=None):
     probe = fw.Run(run.prop, run.tier, run.seed)
     if not rows or not rows[0] or not cfg_ok(cfg, null, rows)[0]:
         return None
@@ -538,8 +578,9 @@ def replay(run, payload):
     if "cfg" not in case:
         return True
     names, rows, null, cfg = uncase(case)
+    earlier = [[mg.fromhex(x) for x in r] for r in case["earlier"]] if "earlier" in case else None
     try:
-        las, text = real_write(names, rows, null, cfg)
+        las, text = real_write(names, rows, null, cfg, earlier=earlier)
         oracle(run, case, names, rows, null, cfg, las, text)
     except Exception as e:
         run.fail("write-raises", case, repr(e))
